@@ -1,27 +1,27 @@
 CONSTANTS
-  N = 1
-  MinAgree = 1
-  StepThresh = 1
+  N = 3
+  MinAgree = 2
+  StepThresh = 0
   SFwd2 = 9999
   SBwd2 = 9999
   Fwd2 = 9999
   Bwd2 = 9999
   Acc2 = 9999
-  TrackFreq = TRUE
+  TrackFreq = FALSE
   F0 = 0
   F0Neg = FALSE
   MaxSteer = 495
-  SlewMax = 600
+  SlewMax = 200
   MaxSamples = 1
   Ghosts = FALSE
-  Readd = TRUE
-  OffPos = {0, 1}
-  OffNeg = {1}
-  LeapVals = {"none"}
+  Readd = FALSE
+  OffPos = {0}
+  OffNeg = {}
+  LeapVals = {"none", "59", "unknown"}
   Wides = {FALSE}
-  MaxChan = 2
-  Bound = 6
-  UsableVals = {TRUE}
+  MaxChan = 1
+  Bound = 0
+  UsableVals = {TRUE, FALSE}
 INIT Init
 NEXT Next
 CHECK_DEADLOCK FALSE
